@@ -2,8 +2,11 @@ package main
 
 import (
 	"fmt"
+	"go/constant"
 	"go/token"
 	"go/types"
+	"net"
+	"sort"
 	"strings"
 
 	"golang.org/x/tools/go/ssa"
@@ -181,6 +184,11 @@ func runC08(c *Ctx) {
 // must be reachable only through an edge that establishes a sufficient length:
 // x := y.To4() with x != nil (length 4), or len(x) == C with C > index.
 func (c *Ctx) checkConstIndexGuards(rule string, fns []*ssa.Function) {
+	// the table form of IsLocal (CIDR blocks and Contains) has no byte tests to guard
+	if il := c.P.Fn("common/util", "IsLocal"); il != nil && len(callsTo(il, "(*net.IPNet).Contains")) > 0 {
+		c.checkConstIndexGuardsOpt(rule, fns, false)
+		return
+	}
 	c.checkConstIndexGuardsOpt(rule, fns, true)
 }
 
@@ -299,6 +307,9 @@ func (c *Ctx) checkConstIndexGuardsOpt(rule string, fns []*ssa.Function, require
 func (c *Ctx) checkIsLocalTable(fn *ssa.Function) {
 	p := c.P
 	rule := "O-2 range table = RFC table"
+	if c.checkIsLocalCIDRForm(fn, rule) {
+		return
+	}
 	// a byte test: the set of values of byte k of `base` for which it holds
 	type atom struct {
 		base ssa.Value // the slice indexed
@@ -823,4 +834,181 @@ func (c *Ctx) checkStripFilter(fn, isLocal *ssa.Function) {
 	})
 	c.check(okAssign, rule, "each media section's attributes are replaced by its filtered list", p.Pos(fn.Pos()), "", "m.Attributes is not assigned the filtered slice")
 	c.check(nErrRet >= 2, rule, "parse and marshal errors return the input unchanged", p.Pos(fn.Pos()), "", fmt.Sprintf("%d returns of the unchanged input, expected the unmarshal and the marshal error exits", nErrRet))
+}
+
+// checkIsLocalCIDRForm: the other natural way to write IsLocal - a table of blocks in CIDR notation, parsed with
+// net.ParseCIDR, and a loop that asks each block whether it Contains the address. It applies when IsLocal has
+// no constant index at all and calls (*net.IPNet).Contains on its own parameter. The blocks are the string
+// constants of the package that net.ParseCIDR accepts (the package must call net.ParseCIDR); every true return
+// of IsLocal must lie behind the true edge of a Contains call, and the union of the blocks is compared with the
+// RFC table over the same 65536 + 256 leading-byte classes as the byte-test form. A block narrower than a class
+// must lie inside the table (it then adds nothing); outside it, it would drop a public candidate.
+func (c *Ctx) checkIsLocalCIDRForm(fn *ssa.Function, rule string) bool {
+	p := c.P
+	contains := callsTo(fn, "(*net.IPNet).Contains")
+	if len(contains) == 0 || len(fn.Params) != 1 {
+		return false
+	}
+	hasIndex := false
+	allInstrs(fn, func(in ssa.Instruction) {
+		if _, ok := in.(*ssa.IndexAddr); ok {
+			if ia := in.(*ssa.IndexAddr); ia.X.Type().String() == "net.IP" {
+				hasIndex = true
+			}
+		}
+	})
+	if hasIndex {
+		return false
+	}
+	for _, ci := range contains {
+		args := ci.Common().Args
+		if len(args) == 0 || !sameValue(args[len(args)-1], func(v ssa.Value) bool { return v == ssa.Value(fn.Params[0]) }) {
+			c.viol(rule, "util.IsLocal asks each block about the address it was given", p.instrPos(ci), "Contains is asked about something other than IsLocal's parameter")
+			return true
+		}
+	}
+	// true returns only behind a Contains() true edge
+	for _, r := range returnsOf(fn) {
+		rv := retVal(r, 0)
+		if k, ok := rv.(*ssa.Const); ok && k.Value != nil && k.Value.Kind() == constant.Bool {
+			if !constant.BoolVal(k.Value) {
+				continue
+			}
+			behind := false
+			for _, ci := range contains {
+				cv, isV := ci.(ssa.Value)
+				if !isV {
+					continue
+				}
+				for _, b := range fn.Blocks {
+					if ifi, okIf := b.Instrs[len(b.Instrs)-1].(*ssa.If); okIf {
+						if k2, pos := condKey(ifi.Cond); k2 == cv {
+							idx := 0
+							if !pos {
+								idx = 1
+							}
+							if b.Succs[idx] == r.Block() || (len(b.Succs[idx].Preds) == 1 && reachPath(b.Succs[idx], r.Block(), nil) != nil && b.Succs[idx].Dominates(r.Block())) {
+								behind = true
+							}
+						}
+					}
+				}
+			}
+			if !behind {
+				c.viol(rule, "util.IsLocal answers true only for an address some block contains", p.instrPos(r), "a true return of IsLocal is not behind the true edge of a Contains call")
+				return true
+			}
+			continue
+		}
+		// a computed verdict: only the result of Contains itself
+		isContains := false
+		for _, ci := range contains {
+			if cv, isV := ci.(ssa.Value); isV && sameValue(rv, func(v ssa.Value) bool { return v == cv }) {
+				isContains = true
+			}
+		}
+		if !isContains {
+			c.undecided(rule, "util.IsLocal in table form returns constants or a Contains verdict", p.instrPos(r), "a return of IsLocal is neither a constant nor the result of Contains")
+			return true
+		}
+	}
+	// the blocks
+	nParse := 0
+	var blocks []*net.IPNet
+	var names []string
+	seenStr := map[string]bool{}
+	for _, f := range p.FnsIn("common/util") {
+		nParse += len(callsTo(f, "net.ParseCIDR"))
+	}
+	scan := func(f *ssa.Function) {
+		allInstrs(f, func(in ssa.Instruction) {
+			for _, op := range in.Operands(nil) {
+				if op == nil || *op == nil {
+					continue
+				}
+				k, ok := (*op).(*ssa.Const)
+				if !ok || k.Value == nil || k.Value.Kind() != constant.String {
+					continue
+				}
+				sv := constant.StringVal(k.Value)
+				if seenStr[sv] {
+					continue
+				}
+				if _, n, err := net.ParseCIDR(sv); err == nil {
+					seenStr[sv] = true
+					blocks = append(blocks, n)
+					names = append(names, n.String())
+				}
+			}
+		})
+	}
+	for _, f := range p.FnsIn("common/util") {
+		scan(f)
+	}
+	if pk := fn.Pkg; pk != nil {
+		if ini := pk.Func("init"); ini != nil {
+			scan(ini)
+		}
+	}
+	sort.Strings(names)
+	if nParse == 0 || len(blocks) == 0 {
+		c.undecided(rule, "util.IsLocal in table form: the blocks are CIDR constants parsed by net.ParseCIDR", p.Pos(fn.Pos()), fmt.Sprintf("%d ParseCIDR call(s), %d CIDR constant(s) in common/util", nParse, len(blocks)))
+		return true
+	}
+	wantV4 := func(b0, b1 int) bool {
+		return b0 == 10 || (b0 == 172 && b1&0xf0 == 16) || (b0 == 192 && b1 == 168) || (b0 == 100 && b1&0xc0 == 64) || (b0 == 169 && b1 == 254)
+	}
+	var diffs []string
+	nDiff := 0
+	for _, n := range blocks {
+		ones, bits := n.Mask.Size()
+		narrow := (bits == 32 && ones > 16) || (bits == 128 && ones > 8)
+		if !narrow {
+			continue
+		}
+		inside := false
+		if ip4 := n.IP.To4(); ip4 != nil && bits == 32 {
+			inside = wantV4(int(ip4[0]), int(ip4[1]))
+		} else if bits == 128 {
+			inside = n.IP[0]&0xfe == 0xfc
+		}
+		if !inside {
+			nDiff++
+			diffs = append(diffs, fmt.Sprintf("%s lies outside the table", n.String()))
+		}
+	}
+	for b0 := 0; b0 < 256; b0++ {
+		for b1 := 0; b1 < 256; b1++ {
+			got := false
+			for _, n := range blocks {
+				if ones, bits := n.Mask.Size(); bits == 32 && ones <= 16 && n.Contains(net.IPv4(byte(b0), byte(b1), 0, 0)) {
+					got = true
+				}
+			}
+			if got != wantV4(b0, b1) {
+				nDiff++
+				if len(diffs) < 4 {
+					diffs = append(diffs, fmt.Sprintf("%d.%d.x.x: IsLocal=%v, table=%v", b0, b1, got, wantV4(b0, b1)))
+				}
+			}
+		}
+		got6 := false
+		ip6 := make(net.IP, 16)
+		ip6[0] = byte(b0)
+		for _, n := range blocks {
+			if ones, bits := n.Mask.Size(); bits == 128 && ones <= 8 && n.Contains(ip6) {
+				got6 = true
+			}
+		}
+		if want6 := b0&0xfe == 0xfc; got6 != want6 {
+			nDiff++
+			if len(diffs) < 4 {
+				diffs = append(diffs, fmt.Sprintf("%02x00::/8: IsLocal=%v, table=%v", b0, got6, want6))
+			}
+		}
+	}
+	want := []string{"10.0.0.0/8", "100.64.0.0/10", "169.254.0.0/16", "172.16.0.0/12", "192.168.0.0/16", "fc00::/7"}
+	c.check(nDiff == 0, rule, "util.IsLocal (table of CIDR blocks) decides exactly the RFC 1918/6598/3927/4193 ranges", p.Pos(fn.Pos()), fmt.Sprintf("blocks %s, evaluated over all 65536 leading IPv4 byte pairs and 256 leading IPv6 bytes against %s", strings.Join(names, " "), strings.Join(want, " ")),
+		fmt.Sprintf("the blocks {%s} differ from the table {%s} on %d leading-byte classes (%s): an address on a range boundary is misclassified (a private address is sent to the broker, or a public candidate is dropped)", strings.Join(names, " "), strings.Join(want, " "), nDiff, strings.Join(diffs, "; ")))
+	return true
 }
